@@ -709,6 +709,6 @@ func checkC04(c *C04Case, st *Stats) error {
 
 func init() {
 	Register("C04",
-		"two modes. bytes: random bytes (<=64), token soup over JSON punctuation/literals/escapes/invalid bytes (<=60 tokens), and 1-3 structural mutations (delete/duplicate/flip/transpose/splice/truncate) of serialised documents; each input goes twice through ParseList and ParseObject and once through ParseFile under a termination watchdog: no panic, exactly one of (container, error), same outcome twice, ParseFile == ParseObject, unreadable paths rejected. doc: for a generated tree, EVERY proper byte prefix of String() must be rejected and the whole accepted, and every catalogue sequence of ill-formed UTF-8 (14 kinds) inserted at / substituted for every byte position strictly inside the root brackets (documents over 80 bytes: every ceil(len/80)-th position) must be rejected, also when it stands inside comment-like decoration (/* */, //, #, <!-- -->). Non-trivial = bytes input with a root bracket followed by >=2 bytes; doc with nesting >=2 and a string/key containing a bracket, quote or backslash. Distinct = distinct FNV-64a hash of the case JSON.",
+		"two modes. bytes: random bytes (<=64), token soup over JSON punctuation/literals/escapes/invalid bytes (<=60 tokens), and 1-3 structural mutations (delete/duplicate/flip/transpose/splice/truncate) of serialised documents; each input goes twice through ParseList and ParseObject and once through ParseFile under a termination watchdog: no panic, exactly one of (container, error), same outcome twice, ParseFile == ParseObject, unreadable paths rejected. doc: for a generated tree, EVERY proper byte prefix of String() must be rejected and the whole accepted, and every catalogue sequence of ill-formed UTF-8 (14 kinds) inserted at / substituted for every byte position strictly inside the root brackets (documents over 80 bytes: every ceil(len/80)-th position) must be rejected, also when it stands inside comment-like decoration (/* */, //, #, <!-- -->). Non-trivial = bytes input with a root bracket followed by >=2 bytes; doc with nesting >=2 and a string/key containing a bracket, quote or backslash. Distinct = distinct FNV-64a hash of the case JSON. First contact: 108 documents with unusual literal spellings (tRuE, NULL, 1E5, 0X1F, Inf ...) are parsed before anything else in the process and again after the first and every eighth later case: same outcome.",
 		GenC04, CheckC04)
 }
